@@ -502,7 +502,21 @@ def solve(M, b):
         for j in range(n):
             row = tm.add(row, tm.mul(L(M[i, j]), x[j].t))
         c.side.append(tm.eq(row, L(b[i])))
-    c.note('numpy.linalg.solve(M,b) modelled as a fresh vector x with M.x = b (exact solve; M assumed regular)')
+    if n <= 4:
+        def det(rows):
+            if len(rows) == 1:
+                return rows[0][0]
+            r = tm.ZERO
+            for j in range(len(rows)):
+                if rows[0][j] is tm.ZERO:
+                    continue
+                minor = [row[:j] + row[j + 1:] for row in rows[1:]]
+                t = tm.mul(rows[0][j], det(minor))
+                r = tm.add(r, t) if j % 2 == 0 else tm.sub(r, t)
+            return r
+        c.side.append(tm.ne(det([[L(M[i, j]) for j in range(n)] for i in range(n)]), tm.ZERO))
+    c.note('numpy.linalg.solve(M,b) modelled as a fresh vector x with M.x = b (exact solve; M assumed regular: det(M) != 0 is a '
+           'side constraint for n <= 4)')
     c.memo.setdefault('linsolves', []).append((M.copy(), b.copy(), x.copy()))
     return x.view(SymArray)
 
